@@ -220,7 +220,7 @@ func mixedVictimScenarios(tier string) []clustermc.Scenario {
 	if tier == "thorough" {
 		kMax = 7
 	}
-	return wlScenariosRange(menu, lay, qsets, []schedrun.Config{{}, {SaturationMultiplier: "1.5"}}, 4, kMax)
+	return wlScenariosRange(menu, lay, qsets, []schedrun.Config{{}, {ConsolidatingReclaim: true}, {SaturationMultiplier: "1.5", ConsolidatingReclaim: true}}, 4, kMax)
 }
 
 func C07() *clustermc.Family {
